@@ -25,7 +25,6 @@ RULE = ('(a) traceback texts generated from the interpreter\'s format: header, 0
         'exception classes with empty/one-line/multi-line/non-str messages. Oracle: traceback.extract_tb and traceback.format_exception of the '
         'same exception (position-marker lines removed). non-trivial: (a) >=2 frames with different optional-line patterns, or a multi-line / '
         '": "-containing message; (b) depth >= 3. distinct = distinct canonical JSON of the case.')
-RULE += ' Round 6: in a third of the program cases the module file first held an earlier version (1-3 extra lines) that was imported, raised and was rendered by the traceback module, then the file was rewritten and reloaded (edit-reload session): boltons is asked first and must show the current source like the interpreter does.'
 ASSUMPTIONS = [
     'lines are separated by \\n only and contain no other Unicode line separator; texts carry no trailing newline; a source line never '
     'consists solely of "~", "^" and spaces and never looks like a frame line',
